@@ -5464,6 +5464,8 @@ def _np_array(I, fr, args, kwargs, n):
             # np.array([0] * 7), np.array([[1, 2], [3, 4]]): a display of Python int literals gives an int64 array
             r.dtype = 'int'
         return r
+    if isinstance(v, Elem):
+        return Elem(v.r)        # np.array copies: an in-place update of the result does not reach the argument
     return v
 
 
@@ -5490,10 +5492,10 @@ def _np_asarray(I, fr, args, kwargs, n):
     tag = _dtype_tag(_arg(args, kwargs, 1, 'dtype', None))
     kwargs.get('copy')
     if isinstance(v, ListV) and getattr(v, 'is_array', False) and (
-            tag is None or (tag == 'float' and getattr(v, 'dtype', None) in (None, 'float'))):
+            tag is None or (tag == 'float' and getattr(v, 'dtype', None) == 'float')):
         return v
     if isinstance(v, ListV) and getattr(v, 'is_array', False) and tag == 'float' and \
-            getattr(v, 'dtype', None) == 'caller':
+            getattr(v, 'dtype', None) in ('caller', None):
         # an array of the caller asked for as float64: the very array when it is one already (what is stored into
         # the result is stored into the argument), a converted copy otherwise - in both cases a float64 array. Modelled
         # as an array that shares its entries with the argument and is typed float.
